@@ -3305,6 +3305,13 @@ pub fn run_yq(args: YqCommand) -> Result<i32> {
     // caller's own scope — hence passing color as `$use_color:expr`.
     macro_rules! stream_cursor {
         ($cursor:expr, $writer:expr, $is_yaml:expr, $doc_streamed:expr, $use_color:expr) => {{
+            #[cfg(feature = "verif-hooks")]
+            crate::output::verif_route(match ($is_yaml, is_identity) {
+                (true, true) => "p9_yaml",
+                (true, false) => "m2_yaml",
+                (false, true) => "p9_json",
+                (false, false) => "m2_json",
+            });
             if $is_yaml {
                 // M2 YAML path: YAML output streaming
                 if is_identity {
@@ -3571,6 +3578,8 @@ pub fn run_yq(args: YqCommand) -> Result<i32> {
             }
         }
     } else if args.eval_all {
+        #[cfg(feature = "verif-hooks")]
+        crate::output::verif_route("eval_all_dom");
         // Handle --eval-all: combine every document from every file into one
         // evaluation context, exposing `file_index`/`fileIndex`/`fi` (#715).
         // Input-gathering mirrors --slurp's DOM path (all_docs collection),
@@ -3637,6 +3646,8 @@ pub fn run_yq(args: YqCommand) -> Result<i32> {
             output_value(&mut writer, result, &CommentTree::empty(), &output_config)?;
         }
     } else if let Some(split_expr) = split_expr.as_ref() {
+        #[cfg(feature = "verif-hooks")]
+        crate::output::verif_route("split_dom");
         // Handle --split-exp: write each result to its own file (named by
         // evaluating `split_expr` against it, with `$index` bound to its
         // zero-based output index) instead of stdout. `--front-matter` is
@@ -3763,6 +3774,8 @@ pub fn run_yq(args: YqCommand) -> Result<i32> {
             }
         }
     } else if args.null_input {
+        #[cfg(feature = "verif-hooks")]
+        crate::output::verif_route("null_input");
         // Handle --null-input
         let mut split_doc_state = SplitDocState::new(has_split_doc);
         let results = evaluate_input(&OwnedValue::Null, &program.expr, &mut sink)?;
@@ -3772,6 +3785,8 @@ pub fn run_yq(args: YqCommand) -> Result<i32> {
             output_value(&mut writer, &result, &CommentTree::empty(), &output_config)?;
         }
     } else if args.raw_input {
+        #[cfg(feature = "verif-hooks")]
+        crate::output::verif_route("raw_input");
         // Handle --raw-input: read each line as a string instead of parsing as YAML
         let input_content = if input_files.is_empty() {
             read_stdin_string()?
@@ -3814,6 +3829,12 @@ pub fn run_yq(args: YqCommand) -> Result<i32> {
             }
         }
     } else if args.slurp {
+        #[cfg(feature = "verif-hooks")]
+        crate::output::verif_route(if can_slurp_fast_path {
+            "slurp_fast"
+        } else {
+            "slurp_dom"
+        });
         // Handle --slurp: collect all documents from all inputs into an array
 
         // Collect input sources. `--front-matter` (extract only here; process
@@ -3940,6 +3961,12 @@ pub fn run_yq(args: YqCommand) -> Result<i32> {
             }
         }
     } else if args.inplace {
+        #[cfg(feature = "verif-hooks")]
+        crate::output::verif_route(if can_inplace_fast_path {
+            "inplace_fast"
+        } else {
+            "inplace_dom"
+        });
         // Handle --inplace: process each file and write back to it
         if input_files.is_empty() {
             anyhow::bail!("--inplace requires at least one file argument");
@@ -4220,6 +4247,8 @@ pub fn run_yq(args: YqCommand) -> Result<i32> {
             }
         }
     } else {
+        #[cfg(feature = "verif-hooks")]
+        crate::output::verif_route("dom");
         // Standard path: evaluate inputs. Both YAML and JSON input go
         // through `evaluate_yaml_direct_filtered`'s cursor-native evaluator
         // (#1398) -- see its own doc comment for why.
